@@ -1,6 +1,21 @@
-//! C26 — `HomeRelayWatch` under forced schedules.
+//! C26 — `HomeRelayWatch` under forced schedules, and the real relay actors publishing into it.
 //!
-//! raw case: `<op>;<op>;... <choice>,<choice>,...`
+//! Two kinds of raw case.
+//!
+//! ACTOR LEVEL: `A <act>,<act>,...` — a real `RelayActor` (`on_network_change`,
+//! `set_home_relay`, `active_relay_handle`) with the real `ActiveRelayActor`s it starts, each
+//! dialing a local relay server, all publishing into one `HomeRelayWatch`. The connection
+//! actors stop before every status report and before handling a `SetHomeRelay` inbox message
+//! (pause points in actor.rs); the script decides what happens next:
+//!   `H<u>` / `H-`  the RelayActor handles NetworkChange with preferred relay <u> / none
+//!   `S<u>`         `active_relay_handle(<u>)` (a connection to relay <u> is wanted)
+//!   `R<u>`         let relay <u>'s connection actor take its next step (status report or inbox
+//!                  message, whichever it is stopped at); skipped if it is not stopped anywhere
+//!   `K<u>` / `U<u>`  stop / restart relay server <u> (environment only, not an event)
+//! The events observed (which report, which message, in which loop) and the watchable after
+//! each of them go to the model.
+//!
+//! LOCK LEVEL: `<op>;<op>;... <choice>,<choice>,...`
 //!   op     = `H<u>` (RelayActor::on_network_change choosing relay <u> as home) | `H-` (no home relay)
 //!          | `S<u>:<c>` (the ActiveRelayActor of relay <u> calls set_status(&u, c);
 //!                        c: 0 Connecting, 1 Connected, 2 Disconnected, 3 Disconnected with error)
@@ -352,11 +367,14 @@ fn run_case(ops: Vec<Op>, choices: &[usize]) -> (Vec<String>, Option<Snaps>) {
 
 fn run(raw: &str) -> (String, String) {
     let t: Vec<&str> = raw.split_whitespace().collect();
+    if t[0] == "A" {
+        return actor::run(t.get(1).copied().unwrap_or(""));
+    }
     let ops: Vec<Op> = t[0].split(';').filter(|s| !s.is_empty()).map(parse_op).collect();
     let choices: Vec<usize> =
         t.get(1).map_or(vec![], |s| s.split(',').filter(|x| !x.is_empty()).map(|x| x.parse().expect("choice")).collect());
     let (events, snaps) = run_case(ops.clone(), &choices);
-    let coq_in = format!("({}, [{}])", coq_list(ops.iter(), coq_op), events.join("; "));
+    let coq_in = format!("(C26.ILow ({}, [{}]))", coq_list(ops.iter(), coq_op), events.join("; "));
     let coq_out = match snaps {
         None => "None".to_string(),
         Some(l) => format!(
@@ -420,7 +438,12 @@ fn generate(rng: &mut Rng, i: u64, _n: u64) -> String {
             ["0".to_string(), "0".to_string()].into_iter().chain(il.iter().map(|x| (x + 1).to_string())).collect();
         return format!("H1;S1:{};H2;S2:1 {}", (i + rng.below(4)) % 4, sched.join(","));
     }
-    // 2. random programs
+    // 2. actor level: about every second case (not by index parity: `run` deals the cases out
+    //    to its worker processes round-robin)
+    if rng.chance(1, 2) {
+        return actor::generate(rng);
+    }
+    // 3. random programs
     let nops = rng.range(1, 7) as usize;
     let mut ops = Vec::new();
     for _ in 0..nops {
@@ -439,6 +462,350 @@ fn generate(rng: &mut Rng, i: u64, _n: u64) -> String {
         }
     }
     format!("{} {}", ops.iter().map(raw_op).collect::<Vec<_>>().join(";"), choices.join(","))
+}
+
+// ---------- actor level ----------
+mod actor {
+    use std::{
+        collections::BTreeMap,
+        net::Ipv4Addr,
+        time::{Duration, Instant},
+    };
+
+    use hcommon::*;
+    use iroh::{
+        RelayUrl, SecretKey,
+        verif_hooks::{
+            c26::{Actors, Watch},
+            sched,
+        },
+    };
+    use iroh_relay::server::{CertConfig, RelayConfig as RelayServerConfig, Server, ServerConfig, TlsConfig};
+
+    /// how long `R<u>` waits for actor <u> to stop somewhere (dialing, backoff)
+    const PARK_WAIT: Duration = Duration::from_millis(1200);
+    const SYNC_WAIT: Duration = Duration::from_millis(5000);
+
+    #[derive(Clone, Copy, Debug, PartialEq)]
+    enum Kind {
+        /// before a status report: 0 Connecting, 1 Connected, 3 Disconnected (with error)
+        Report(u8),
+        /// before handling SetHomeRelay(b): in run_connected?, b
+        SetHome(bool, bool),
+    }
+
+    const KINDS: [(&str, Kind); 7] = [
+        ("report:{}:connecting", Kind::Report(0)),
+        ("report:{}:connected", Kind::Report(1)),
+        ("report:{}:disconnected", Kind::Report(3)),
+        ("set_home:{}:dialing:true", Kind::SetHome(false, true)),
+        ("set_home:{}:dialing:false", Kind::SetHome(false, false)),
+        ("set_home:{}:connected:true", Kind::SetHome(true, true)),
+        ("set_home:{}:connected:false", Kind::SetHome(true, false)),
+    ];
+
+    fn point(pat: &str, url: &RelayUrl) -> String {
+        format!("relay_actor.active.{}", pat.replace("{}", &url.to_string()))
+    }
+
+    async fn spawn_relay(port: u16) -> Option<Server> {
+        let (_certs, server_config) = iroh_relay::server::testing::self_signed_tls_certs_and_config();
+        let tls = TlsConfig::new((Ipv4Addr::LOCALHOST, port), CertConfig::Manual { server_config });
+        let mut relay = RelayServerConfig::new((Ipv4Addr::LOCALHOST, 0));
+        relay.tls = Some(tls);
+        relay.key_cache_capacity = Some(64);
+        let mut config = ServerConfig::default();
+        config.relay = Some(relay);
+        Server::spawn(config).await.ok()
+    }
+
+    struct Relay {
+        url: RelayUrl,
+        port: u16,
+        server: Option<Server>,
+        /// connection phase as far as the events released so far tell (only used to cut waits short)
+        connected: bool,
+    }
+
+    struct Case {
+        watch: Watch,
+        actors: Actors,
+        relays: BTreeMap<u64, Relay>,
+        chosen: Option<u64>,
+        events: Vec<String>,
+        snaps: Vec<(Option<(u64, u8)>, Option<u64>)>,
+    }
+
+    impl Case {
+        fn id_of(&self, u: &RelayUrl) -> u64 {
+            self.relays.iter().find(|(_, r)| &r.url == u).map(|(k, _)| *k).unwrap_or(u64::MAX)
+        }
+
+        fn snap(&mut self) {
+            let w = self.watch.get().map(|(u, c)| (self.id_of(&u), c));
+            self.snaps.push((w, self.chosen));
+        }
+
+        fn parked(&self, u: u64) -> Option<(u64, Kind)> {
+            let url = &self.relays[&u].url;
+            for (pat, kind) in KINDS {
+                if let Some(t) = sched::parked_at(&point(pat, url)).first() {
+                    return Some((*t, kind));
+                }
+            }
+            None
+        }
+
+        fn exists(&self, u: u64) -> Option<usize> {
+            let url = &self.relays[&u].url;
+            self.actors.active_relays().into_iter().find(|(x, _)| x == url).map(|(_, q)| q)
+        }
+
+        async fn wait_parked(&self, u: u64, wait: Duration) -> Option<(u64, Kind)> {
+            let start = Instant::now();
+            loop {
+                if let Some(p) = self.parked(u) {
+                    return Some(p);
+                }
+                let queued = self.exists(u)?;
+                let el = start.elapsed();
+                // connected, nothing in its inbox: it has nothing to do
+                if self.relays[&u].connected && queued == 0 && el >= Duration::from_millis(60) {
+                    return None;
+                }
+                if el >= wait {
+                    return None;
+                }
+                tokio::time::sleep(Duration::from_millis(2)).await;
+            }
+        }
+
+        /// lets actor `u` take the step it is stopped before; returns false if it is not stopped
+        async fn release(&mut self, u: u64, wait: Duration) -> bool {
+            let Some((ticket, kind)) = self.wait_parked(u, wait).await else {
+                return false;
+            };
+            sched::release(ticket);
+            // the step is over when the actor is back at the top of one of its loops (it
+            // answers the priority probe) or stopped at its next pause point
+            let url = self.relays[&u].url.clone();
+            let mut probe = self.actors.probe(&url);
+            let start = Instant::now();
+            loop {
+                if let Some((t2, _)) = self.parked(u) {
+                    if t2 != ticket {
+                        break;
+                    }
+                }
+                if let Some(rx) = probe.as_mut() {
+                    match rx.try_recv() {
+                        Ok(_) => break,
+                        Err(tokio::sync::oneshot::error::TryRecvError::Closed) => probe = None,
+                        Err(_) => {}
+                    }
+                }
+                if start.elapsed() >= SYNC_WAIT {
+                    self.events.push("C26.AReport 0 9 (* step not observed to finish *)".into());
+                    break;
+                }
+                tokio::time::sleep(Duration::from_millis(1)).await;
+            }
+            let r = self.relays.get_mut(&u).unwrap();
+            match kind {
+                Kind::Report(c) => {
+                    r.connected = c == 1;
+                    self.events.push(format!("C26.AReport {u} {c}"));
+                }
+                Kind::SetHome(conn, b) => {
+                    self.events.push(format!("C26.AHandle {u} {} {}", coq_bool(conn), coq_bool(b)));
+                }
+            }
+            self.snap();
+            true
+        }
+    }
+
+    async fn run_script(acts: Vec<(char, Option<u64>)>) -> (Vec<String>, Vec<(Option<(u64, u8)>, Option<u64>)>) {
+        sched::reset();
+        let mut relays = BTreeMap::new();
+        for (_, u) in &acts {
+            if let Some(u) = u {
+                if !relays.contains_key(u) {
+                    let server = spawn_relay(0).await.expect("relay server");
+                    let addr = server.https_addr().expect("https");
+                    let url: RelayUrl = format!("https://{addr}").parse().unwrap();
+                    relays.insert(*u, Relay { url, port: addr.port(), server: Some(server), connected: false });
+                }
+            }
+        }
+        for r in relays.values() {
+            for (pat, _) in KINDS {
+                sched::arm(&point(pat, &r.url));
+            }
+        }
+        let watch = Watch::default();
+        let tls = iroh_relay::tls::CaTlsConfig::insecure_skip_verify()
+            .client_config(iroh_relay::tls::default_provider())
+            .expect("tls config");
+        let actors = Actors::new(&watch, SecretKey::from_bytes(&[0x26; 32]), tls);
+        let mut case = Case { watch, actors, relays, chosen: None, events: vec![], snaps: vec![] };
+        for (a, u) in acts {
+            match (a, u) {
+                ('H', pref) => {
+                    let url = pref.map(|u| case.relays[&u].url.clone());
+                    let done = tokio::time::timeout(SYNC_WAIT, case.actors.network_change(url)).await;
+                    case.chosen = pref;
+                    case.events.push(format!("C26.AHome {}", coq_opt(pref, |u| u.to_string())));
+                    if done.is_err() {
+                        case.events.push("C26.AReport 0 9 (* on_network_change did not return *)".into());
+                    }
+                    case.snap();
+                }
+                ('S', Some(u)) => {
+                    let url = case.relays[&u].url.clone();
+                    case.actors.ensure_active(url);
+                    case.events.push(format!("C26.AStart {u}"));
+                    case.snap();
+                }
+                ('R', Some(u)) => {
+                    case.release(u, PARK_WAIT).await;
+                }
+                ('K', Some(u)) => {
+                    if let Some(s) = case.relays.get_mut(&u).unwrap().server.take() {
+                        let _ = tokio::time::timeout(Duration::from_secs(5), s.shutdown()).await;
+                    }
+                }
+                ('U', Some(u)) => {
+                    let r = case.relays.get_mut(&u).unwrap();
+                    if r.server.is_none() {
+                        for _ in 0..20 {
+                            if let Some(s) = spawn_relay(r.port).await {
+                                r.server = Some(s);
+                                break;
+                            }
+                            tokio::time::sleep(Duration::from_millis(50)).await;
+                        }
+                    }
+                }
+                _ => panic!("bad action"),
+            }
+        }
+        // drain: let every actor get through what is queued for it (bounded: an actor whose
+        // relay is down reports Connecting / Disconnected for ever)
+        let ids: Vec<u64> = case.relays.keys().copied().collect();
+        for _round in 0..5 {
+            let mut any = false;
+            for &u in &ids {
+                if case.exists(u).is_some() && case.release(u, Duration::from_millis(250)).await {
+                    any = true;
+                }
+            }
+            if !any {
+                break;
+            }
+        }
+        let out = (case.events.clone(), case.snaps.clone());
+        sched::reset();
+        let _ = tokio::time::timeout(Duration::from_secs(5), case.actors.close()).await;
+        for r in case.relays.values_mut() {
+            if let Some(s) = r.server.take() {
+                let _ = tokio::time::timeout(Duration::from_secs(2), s.shutdown()).await;
+            }
+        }
+        out
+    }
+
+    fn parse(script: &str) -> Vec<(char, Option<u64>)> {
+        script
+            .split(',')
+            .filter(|x| !x.is_empty())
+            .map(|t| {
+                let (a, r) = t.split_at(1);
+                let a = a.chars().next().unwrap();
+                assert!("HSRKU".contains(a), "bad action {t}");
+                let u = if r == "-" { None } else { Some(r.parse::<u64>().expect("relay id")) };
+                assert!(u.is_some() || a == 'H', "bad action {t}");
+                (a, u)
+            })
+            .collect()
+    }
+
+    pub fn run(script: &str) -> (String, String) {
+        let acts = parse(script);
+        let r = catch(move || {
+            let rt = tokio::runtime::Builder::new_multi_thread().worker_threads(2).enable_all().build().unwrap();
+            let out = rt.block_on(run_script(acts));
+            rt.shutdown_timeout(Duration::from_secs(2));
+            out
+        });
+        match r {
+            Caught::Value((events, snaps)) => (
+                format!("(C26.IAct [{}])", events.join("; ")),
+                format!(
+                    "(Some {})",
+                    coq_list(snaps.iter(), |(w, c)| format!(
+                        "(Some ({}, {}))",
+                        coq_opt(*w, |(u, s)| format!("({u}, {s})")),
+                        coq_opt(*c, |u| u.to_string())
+                    ))
+                ),
+            ),
+            Caught::Panicked(_) => ("(C26.IAct [])".to_string(), "None".to_string()),
+        }
+    }
+
+    pub fn generate(rng: &mut Rng) -> String {
+        let mut v: Vec<String> = Vec::new();
+        let relay = |rng: &mut Rng| rng.range(1, 3);
+        // prelude: some relays get a connection actor before any home relay is chosen
+        // (datagrams sent via them), taken 0..2 steps towards Connected
+        for u in 1..=3u64 {
+            if rng.chance(1, 3) {
+                v.push(format!("S{u}"));
+                for _ in 0..rng.below(3) {
+                    v.push(format!("R{u}"));
+                }
+            }
+        }
+        if rng.chance(1, 2) {
+            // designed family: relay a is chosen home, takes 0..3 steps, then home moves to b
+            // (or to none, or back) and the two actors' steps are interleaved at random
+            let a = relay(rng);
+            let b = loop {
+                let b = relay(rng);
+                if b != a {
+                    break b;
+                }
+            };
+            v.push(format!("H{a}"));
+            for _ in 0..rng.below(4) {
+                v.push(format!("R{a}"));
+            }
+            v.push(match rng.below(8) {
+                0 => "H-".to_string(),
+                _ => format!("H{b}"),
+            });
+            if rng.chance(1, 5) {
+                v.push(format!("H{a}"));
+            }
+            for _ in 0..rng.range(2, 8) {
+                v.push(format!("R{}", if rng.chance(1, 2) { a } else { b }));
+            }
+        } else {
+            for _ in 0..rng.range(3, 12) {
+                let u = relay(rng);
+                v.push(match rng.below(20) {
+                    0..=5 => format!("H{u}"),
+                    6 => "H-".to_string(),
+                    7 => format!("S{u}"),
+                    8 => format!("K{u}"),
+                    9 => format!("U{u}"),
+                    _ => format!("R{u}"),
+                });
+            }
+        }
+        format!("A {}", v.join(","))
+    }
 }
 
 // ---------- main: `run` fans out over worker processes (the schedule controller is process-global) ----------
